@@ -7,13 +7,11 @@ after every step together with a snapshot contract (old functional state untouch
 untouched, opt_state covering exactly `wrt`); (2) partition-invariance oracle — every composition of a value
 stream of n <= 6 items into consecutive update() batches is fed to the real nnx metrics and compute() is compared
 with the float64 NumPy statistic of the concatenated stream."""
-import itertools
-
 import numpy as np
 
 LEVEL = 'exploration'
 LEVEL_TEXT = ('Seeded differential runs of the three real optimizer wrappers against a hand-written optax loop '
-              '(13 optax transformations incl. schedules, chains, masked, multi_transform, extra-args; nested dict / '
+              '(13 optax transformations incl. schedules, chains, masked, multi_transform, MultiSteps, extra-args; nested dict / '
               'FrozenDict trees and five real nnx module graphs x eleven `wrt` filters; k = 1..4 steps; bit-exact '
               'comparison of params, every opt_state leaf and step after every step) with snapshot contracts on the old '
               'functional state and on everything outside `wrt`; plus an exhaustive enumeration of all compositions of '
@@ -24,14 +22,15 @@ LEVEL_NOTE = ('Trusts optax (update/apply_updates/init), the un-filtered nnx gra
               'the NumPy statistics in vf/props/c17.py, and the JAX compat aliases.')
 TECHNIQUE = ('runtime monitoring: differential reference loop against optax + snapshot contracts on the real wrappers; '
              'exhaustive partition-invariance oracle on the real nnx metrics')
-RULE = ('ts stream: case i -> nested dict (1..7 float32 leaves, depth <= 3, shapes from a pool of 7, optionally FrozenDict, '
-        'optionally the {params, _overwrite_with_gradient} layout) x optax transformation i mod 12 x k = 1..4 x '
+RULE = ('ts stream: case i -> nested dict structure from a seeded pool of 10 (48 thorough) trees (1..7 float32 leaves, depth <= 3, '
+        'leaf shapes from a pool of 7) with fresh values, optionally (partly) FrozenDict, '
+        'optionally the {params, _overwrite_with_gradient} layout) x 11 optax transformations (+ MultiSteps in thorough) x k = 1..4 x '
         '{plain TrainState, subclass with an extra replaced field} x initial step {int 0, int32 array}. nnxopt stream: '
         'module graph (Linear | MLP+BatchNorm+Dropout | shared sub-module and shared Param | nested lists/dict | custom '
         'Variable types) x wrt filter (Param, custom Variable, Param subclass, tuple, Any/All/Not/PathContains combos, '
-        'callable) x transformation x k; gradients are seeded random States (every 4th case: real nnx.grad with DiffState). '
-        'nnxts stream: same graphs, params = the sub-State selected by the filter. metric stream: 11 metric configurations '
-        'x seeded streams x ALL compositions of n = 0..6 items into consecutive batches. distinct = distinct descriptors; '
+        'callable) x transformation x k; gradients are seeded random States (every 8th case: first step uses real nnx.grad with DiffState). '
+        'nnxts stream: same graphs, params = the sub-State selected by the filter. metric stream: 12 metric configurations '
+        'x 3 (16 thorough) seeded streams x ALL compositions of n = 0..6 items into consecutive batches. distinct = distinct descriptors; '
         'non-trivial = (optimizer) at least one selected leaf and k >= 1 with a stateful or multi-leaf tree, (metric) >= 2 '
         'batches. Excluded from the domain: wrt selections containing non-float Variables (optax cannot update PRNG keys / '
         'int counters), gradients whose structure differs from the selected params, binary-accuracy labels outside {0,1}, '
@@ -42,18 +41,20 @@ ASSUMPTIONS = ['optax 0.2.8 update/init/apply_updates are the specification of o
                'metric streams are float32-representable values with |x| <= 4, compared in the float64-formula class (TOL_FORMULA)',
                'vf.compat JAX aliases are faithful']
 PLAN = {'quick': dict(workers=4, timeout_s=600), 'thorough': dict(workers=12, timeout_s=2400)}
-MIN_EVENTS = {'quick': {'oracle:ts.params_vs_optax': 150, 'oracle:ts.opt_state_vs_optax': 150, 'oracle:ts.step': 150,
-                        'oracle:ts.old_instance_mutated': 150, 'oracle:ts.owg_overwrite': 10,
-                        'oracle:nnxopt.params_vs_optax': 150, 'oracle:nnxopt.opt_state_vs_optax': 150,
-                        'oracle:nnxopt.step': 150, 'oracle:nnxopt.outside_wrt_changed': 150,
-                        'oracle:nnxopt.opt_state_covers_wrt': 60, 'oracle:nnxts.params_vs_optax': 50,
-                        'oracle:nnxts.old_instance_mutated': 50, 'oracle:metric.average': 500,
-                        'oracle:metric.accuracy': 500, 'oracle:metric.welford': 500, 'oracle:metric.multimetric': 100,
-                        'oracle:metric.reset': 1500},
-              'thorough': {'oracle:ts.params_vs_optax': 1500, 'oracle:nnxopt.params_vs_optax': 1500,
-                           'oracle:nnxopt.outside_wrt_changed': 1500, 'oracle:nnxts.params_vs_optax': 500,
-                           'oracle:metric.average': 5000, 'oracle:metric.accuracy': 5000, 'oracle:metric.welford': 5000,
-                           'oracle:metric.multimetric': 1000, 'oracle:metric.reset': 15000}}
+MIN_EVENTS = {'quick': {'oracle:ts.params_vs_optax': 1200, 'oracle:ts.opt_state_vs_optax': 1500, 'oracle:ts.step': 2000,
+                        'oracle:ts.old_instance_mutated': 1200, 'oracle:ts.owg_overwrite': 100,
+                        'oracle:nnxopt.params_vs_optax': 1200, 'oracle:nnxopt.opt_state_vs_optax': 1500,
+                        'oracle:nnxopt.step': 2000, 'oracle:nnxopt.outside_wrt_changed': 3000,
+                        'oracle:nnxopt.opt_state_covers_wrt': 3000, 'nnxopt.partial_wrt': 300,
+                        'oracle:nnxts.params_vs_optax': 800, 'oracle:nnxts.old_instance_mutated': 350,
+                        'oracle:metric.average': 1500, 'oracle:metric.accuracy': 1500, 'oracle:metric.welford': 1100,
+                        'oracle:metric.multimetric': 500, 'oracle:metric.reset': 4500, 'oracle:metric.after_reset': 2200},
+              'thorough': {'oracle:ts.params_vs_optax': 10000, 'oracle:ts.old_instance_mutated': 10000,
+                           'oracle:ts.owg_overwrite': 1000, 'oracle:nnxopt.params_vs_optax': 10000,
+                           'oracle:nnxopt.opt_state_vs_optax': 12000, 'oracle:nnxopt.outside_wrt_changed': 25000,
+                           'oracle:nnxts.params_vs_optax': 8000, 'oracle:metric.average': 8000,
+                           'oracle:metric.accuracy': 8000, 'oracle:metric.welford': 6000,
+                           'oracle:metric.multimetric': 3000, 'oracle:metric.reset': 24000}}
 
 SHAPES = [(), (3,), (2, 3), (3, 1), (1,), (2, 2), (2, 1, 2)]
 OWG = '_overwrite_with_gradient'
@@ -138,6 +139,11 @@ TX_KINDS_NNX = TX_KINDS + ['extra_args']
 STATELESS = ('sgd', 'extra_args')
 
 
+def tx_kinds(ctx, kinds):
+  """MultiSteps re-traces and compiles a lax.cond on every update call (~0.5 s): thorough tier only."""
+  return [k for k in kinds if k != 'multisteps'] if ctx.tier == 'quick' else kinds
+
+
 def _mask_fn(p):
   import jax
   return jax.tree.map(lambda x: x.ndim >= 2, p)
@@ -216,6 +222,18 @@ def gen_dict_tree(rng, nprng, max_leaves, depth=0):
       out[k] = rand_array(nprng, rng.choice(SHAPES))
       n += 1
   return out, n
+
+
+def tree_pool(ctx):
+  if 'pool' not in _CLS:
+    n = 10 if ctx.tier == 'quick' else 48
+    out = []
+    for j in range(n):
+      r = ctx.rng('tree-pool', j)
+      t, _ = gen_dict_tree(r, np.random.default_rng(j), 1 + j % 7)
+      out.append(t)
+    _CLS['pool'] = out
+  return _CLS['pool']
 
 
 def like(tree, nprng, scale=1.0):
@@ -316,15 +334,25 @@ def run_ts_case(ctx, i):
   import optax
   rng = ctx.rng('ts', i)
   nprng = np.random.default_rng(rng.getrandbits(32))
-  kind = TX_KINDS[i % len(TX_KINDS)]
-  k = 1 + (i // len(TX_KINDS) + i) % 4
+  kinds = tx_kinds(ctx, TX_KINDS)
+  kind = kinds[(i + i // len(kinds)) % len(kinds)]   # decorrelated from the shard index i % nshards
+  k = 1 + (3 * i + i // 4) % 4
   owg = (i % 7) == 3
   subclass = (i % 3) == 1
   arr_step = (i % 5) == 2
   frozen_p = [0.0, 1.0, 0.5][(i // 2) % 3]
   lr = rng.choice([0.1, 0.05, 0.3])
-  tree, n_leaves = gen_dict_tree(rng, nprng, rng.randint(1, 7))
-  explicit = rng.random() < 0.5
+  # tree *structures* come from a seeded pool (optax jit-compiles some helpers per structure; the pool bounds compile
+  # time), the values are fresh per case; MultiSteps (lax.cond, compiled per structure) only sees pool entries 0..1
+  pool = tree_pool(ctx)
+  if kind == 'multisteps':
+    frozen_p = 0.0
+    tree = pool[i % 2]
+  else:
+    tree = pool[rng.randrange(len(pool))]
+  tree = like(tree, nprng)
+  n_leaves = len(jax.tree.leaves(tree))
+  explicit = rng.random() < 0.5 and kind != 'multisteps'
   mask = jax.tree.map(lambda x: rng.random() < 0.6, tree) if explicit else None
   labels = jax.tree.map(lambda x: rng.choice(['mat', 'vec']), tree) if explicit else None
   owg_tree = {'amax_hist': rand_array(nprng, (3,)), 'sc': {'x': rand_array(nprng, ())}} if owg else None
@@ -334,9 +362,11 @@ def run_ts_case(ctx, i):
   with ctx.case('ts', i, desc, nontrivial=nontrivial):
     TS, TSX = ts_classes()
     cls = TSX if subclass else TS
-    tx_real = make_tx(kind, lr, mask, labels)
-    tx_ref = make_tx(kind, lr, mask, labels)
     real_tree = freeze_some(tree, rng, frozen_p)
+    # explicit mask / label trees must have the container types of the tree they describe (optax precondition)
+    tx_real = make_tx(kind, lr, None if mask is None else freeze_like(mask, real_tree),
+                      None if labels is None else freeze_like(labels, real_tree))
+    tx_ref = make_tx(kind, lr, mask, labels)
     params_in = {'params': real_tree, OWG: owg_tree} if owg else real_tree
     if owg and frozen_p == 1.0:
       from flax.core import FrozenDict
@@ -436,6 +466,14 @@ def nnx_types():
 
 
 def build_graph(kind, seed):
+  """A fresh copy of the graph `kind` (built once per process, then nnx.clone: same structure, new Variables)."""
+  from flax import nnx
+  if ('graph', kind) not in _CLS:
+    _CLS[('graph', kind)] = _build_graph(kind, 0)
+  return nnx.clone(_CLS[('graph', kind)])
+
+
+def _build_graph(kind, seed):
   from flax import nnx
   import jax.numpy as jnp
   T = nnx_types()
@@ -577,6 +615,15 @@ def model_variables(model):
   return out
 
 
+def static_selection(gkind, wdesc):
+  """Selected paths computed on the cached base graph (clones have the same paths and types)."""
+  key = ('sel', gkind, repr(wdesc))
+  if key not in _CLS:
+    build_graph(gkind, 0)
+    _CLS[key] = [p for p, v in model_variables(_CLS[('graph', gkind)]) if wrt_ref(wdesc, p, type(v))]
+  return _CLS[key]
+
+
 def is_float_var(v):
   import jax.numpy as jnp
   x = v.value
@@ -587,7 +634,7 @@ def model_snapshot(variables):
   return {p: _bytes(v.value) for p, v in variables}
 
 
-def prepare_model(ctx, stream, i, rng, nprng, gkind, wdesc):
+def prepare_model(rng, nprng, gkind, wdesc):
   """Build graph, randomise all float Variables, return (model, variables, selected paths, ref param dict)."""
   model = build_graph(gkind, rng.randint(0, 50))
   variables = model_variables(model)
@@ -644,14 +691,15 @@ def run_nnxopt_case(ctx, i):
   nprng = np.random.default_rng(rng.getrandbits(32))
   gkind = GRAPHS[i % len(GRAPHS)]
   wdesc = subst(WRT[(i // len(GRAPHS)) % len(WRT)], PC_KEYS[gkind])
-  kind = TX_KINDS_NNX[(i + i // (len(GRAPHS) * len(WRT)) + rng.randint(0, 2)) % len(TX_KINDS_NNX)]
-  k = 1 + (i // 2 + i // 7) % 4
-  use_grad = (i % 4) == 1
+  kinds = tx_kinds(ctx, TX_KINDS_NNX)
+  kind = kinds[(i + i // (len(GRAPHS) * len(WRT)) + rng.randint(0, 2)) % len(kinds)]
+  k = 1 + (3 * i + i // 4) % 4
+  use_grad = (i % 8) == 1
   default_wrt = wdesc == ('type', 'Param') and (i % 2 == 0)
   lr = rng.choice([0.1, 0.05, 0.3])
   desc = dict(graph=gkind, wrt=wdesc, tx=kind, k=k, nnx_grad=use_grad, lr=lr, default_wrt=default_wrt)
-  with ctx.case('nnxopt', i, desc, nontrivial=True) as _:
-    model, variables, selected, ref_params = prepare_model(ctx, 'nnxopt', i, rng, nprng, gkind, wdesc)
+  with ctx.case('nnxopt', i, desc, nontrivial=bool(static_selection(gkind, wdesc))):
+    model, variables, selected, ref_params = prepare_model(rng, nprng, gkind, wdesc)
     if not selected:
       ctx.event('nnxopt.empty_wrt')
     byp = dict(variables)
@@ -699,7 +747,7 @@ def run_nnxopt_case(ctx, i):
 
     coefs = [float(c) for c in nprng.uniform(-2, 2, 5).round(3)]
     for t in range(k):
-      if use_grad:
+      if use_grad and t == 0 and selected:
         g_state = real_grads(model, wrt_build(_lst_to_seq(wdesc)), coefs)  # DiffState must be hashable: no list filters
         ctx.op('nnx.grad(DiffState)')
         g_ref = _plain(g_state)
@@ -749,19 +797,20 @@ def run_nnxts_case(ctx, i):
   nprng = np.random.default_rng(rng.getrandbits(32))
   gkind = GRAPHS[(i + 1) % len(GRAPHS)]
   wdesc = subst([WRT[0], WRT[2], WRT[6], WRT[7], WRT[8]][(i // len(GRAPHS)) % 5], PC_KEYS[gkind])
-  kind = TX_KINDS[(i * 5 + i // 25 + rng.randint(0, 1)) % len(TX_KINDS)]
-  k = 1 + (i // 3 + i) % 4
+  kinds = tx_kinds(ctx, TX_KINDS)
+  kind = kinds[(i * 5 + i // 25 + rng.randint(0, 1)) % len(kinds)]
+  k = 1 + (3 * i + i // 4) % 4
   step0 = [0, 0, 5][i % 3]
   subclass = (i % 2) == 1
   lr = rng.choice([0.1, 0.05, 0.3])
   desc = dict(graph=gkind, params_filter=wdesc, tx=kind, k=k, step0=step0, subclass=subclass, lr=lr)
-  with ctx.case('nnxts', i, desc, nontrivial=True):
+  with ctx.case('nnxts', i, desc, nontrivial=bool(static_selection(gkind, wdesc))):
     if 'nnxts' not in _CLS:
       class TrainStateX(nnx.TrainState):
         other: nnx.State
         tag: str = struct.field(pytree_node=False, default='t0')
       _CLS['nnxts'] = TrainStateX
-    model, variables, selected, ref_params = prepare_model(ctx, 'nnxts', i, rng, nprng, gkind, wdesc)
+    model, variables, selected, ref_params = prepare_model(rng, nprng, gkind, wdesc)
     wrt = wrt_build(wdesc)
     graphdef, params, rest = nnx.split(model, wrt, ...)
     tx_real, tx_ref = make_tx(kind, lr), make_tx(kind, lr)
@@ -826,10 +875,11 @@ def gen_stream(kind, nprng, n, variant):
       shape = [(3,), (2, 2), (1, 4)][variant % 3]
       it['values'] = nprng.uniform(-4, 4, shape).astype(np.float32)
     elif kind in ('acc_mc', 'acc_mc3', 'multi'):
-      shape = (3,) if kind != 'acc_mc3' else (2, 4)
+      # acc_mc3: per-example logits (t, C); the square variant makes an argmax over the wrong axis shape-compatible
+      shape = (3,) if kind != 'acc_mc3' else [(2, 4), (3, 3)][variant % 2]
       lg = nprng.permutation(shape[-1] * 5)[: shape[-1]].astype(np.float32)  # distinct entries: no argmax ties
       if kind == 'acc_mc3':
-        lg = np.stack([lg, nprng.permutation(20)[:4].astype(np.float32)])
+        lg = np.stack([lg] + [nprng.permutation(20)[:shape[-1]].astype(np.float32) for _ in range(shape[0] - 1)])
       it['logits'] = lg + np.float32(nprng.integers(-3, 3))
       it['labels'] = nprng.integers(0, shape[-1], shape[:-1]).astype(np.int32)
       # bias towards ~50% correct so that accuracy is neither 0 nor 1
@@ -990,7 +1040,7 @@ MECH = {'avg1': 'metric.average', 'avg2': 'metric.average:multidim', 'avg3_py': 
         'acc_bin2': 'metric.accuracy:binary_extra_dims', 'multi': 'metric.multimetric'}
 
 
-def run_metric_case(ctx, idx, kind, sid, comp, n_streams):
+def run_metric_case(ctx, idx, kind, sid, comp):
   from vf import core
   n = sum(comp)
   # the stream depends on (kind, sid, n) only: every composition of the same n sees the same items
@@ -1019,8 +1069,12 @@ def run_metric_case(ctx, idx, kind, sid, comp, n_streams):
     if kind == 'multi':
       ctx.check(got.get('__keys__') == ['accuracy', 'loss', 'stats', 'acc2'], 'metric.multimetric:keys', lambda: got.get('__keys__'))
     # reset -> initial result
+    count_dtype0 = metric.count.value.dtype if hasattr(metric, 'count') else None
     metric.reset()
     ctx.op('metric.reset')
+    if count_dtype0 is not None and metric.count.value.dtype != count_dtype0:
+      # observation, not a verdict: the property speaks about the reported result, which is checked next
+      ctx.event('note.reset_changes_count_dtype:%s->%s' % (count_dtype0, metric.count.value.dtype))
     after = extract(kind, metric.compute())
     ctx.check(same_result(after, initial), 'metric.reset', lambda: dict(kind=kind, after={k: repr(v) for k, v in after.items()},
                                                                           initial={k: repr(v) for k, v in initial.items()}))
@@ -1042,21 +1096,30 @@ def run_metric_case(ctx, idx, kind, sid, comp, n_streams):
 
 def run(ctx):
   quick = ctx.tier == 'quick'
-  n_ts = 420 if quick else 4200
-  n_opt = 440 if quick else 4400
-  n_nnxts = 150 if quick else 1500
-  n_streams = 2 if quick else 12
+  n_ts = 660 if quick else 5000
+  n_opt = 660 if quick else 5500
+  n_nnxts = 200 if quick else 1800
+  n_streams = 3 if quick else 16
 
+  import time
+  t0 = time.time()
   for i in ctx.indices(n_ts, 'ts'):
     run_ts_case(ctx, i)
+  ctx.extra['cpu_s.ts'] = round(time.time() - t0, 1)
+  t0 = time.time()
   for i in ctx.indices(n_opt, 'nnxopt'):
     run_nnxopt_case(ctx, i)
+  ctx.extra['cpu_s.nnxopt'] = round(time.time() - t0, 1)
+  t0 = time.time()
   for i in ctx.indices(n_nnxts, 'nnxts'):
     run_nnxts_case(ctx, i)
+  ctx.extra['cpu_s.nnxts'] = round(time.time() - t0, 1)
+  t0 = time.time()
 
   comps = [c for n in range(0, N_MAX + 1) for c in compositions(n)]
   assert len(comps) == 64
   cases = [(kind, sid, comp) for kind in METRIC_KINDS for sid in range(n_streams) for comp in comps]
   for idx, (kind, sid, comp) in ctx.items(cases, 'metric'):
-    run_metric_case(ctx, idx, kind, sid, comp, n_streams)
+    run_metric_case(ctx, idx, kind, sid, comp)
   ctx.exhaustive['metric.compositions_n<=%d' % N_MAX] = True
+  ctx.extra['cpu_s.metric'] = round(time.time() - t0, 1)
